@@ -195,6 +195,8 @@ fn expected_module(w: &World, i: usize, cfg: &Cfg) -> ExpModule {
         | Form::StaticAndDynamic
         | Form::DynamicAndStatic
         | Form::TsTypesPragma
+        | Form::ImportType
+        | Form::ExportType
     );
     let attr = match e.dst {
       Target::Spec(d) if carries_attr => w.attrs[d],
